@@ -67,6 +67,32 @@ def _sig_bag(sig):
     return (tuple(sorted(params)), (m.group(2) or "()").strip())
 
 
+def param_types(sig):
+    """parameter types of a `fn(..) -> ..` signature string in order, lifetimes erased"""
+    import re
+    if not sig:
+        return []
+    t = re.sub(r"for<[^>]*> ", "", sig)
+    t = re.sub(r"'[a-z_0-9]+ ?", "", t)
+    m = re.match(r"(?:unsafe )?fn\((.*)\)(?: -> (.*))?$", t)
+    if not m:
+        return []
+    params, depth, cur = [], 0, ""
+    for ch in m.group(1):
+        if ch in "<([":
+            depth += 1
+        elif ch in ">)]":
+            depth -= 1
+        if ch == "," and depth == 0:
+            params.append(cur.strip())
+            cur = ""
+        else:
+            cur += ch
+    if cur.strip():
+        params.append(cur.strip())
+    return params
+
+
 def resolve_renames(prog):
     """a pinned-tree function that is missing while exactly one new function of the same module / impl has its signature is
     taken to be that function under a new name: it is registered under the old name (so that rules anchored in it read
